@@ -355,6 +355,39 @@ fn check_file(label: &str, f: &[u8]) -> Result<(), Failure> {
             }
         }
     }
+    // section_header_by_name: first section (table order) whose name string equals the query
+    if let Some(secs) = &rs {
+        let ndx = u16a(f, 62).unwrap();
+        let idx = if ndx == 0xffff { secs.first().map(|s| s.link) } else { Some(ndx) };
+        let strs: Option<&[u8]> = if ndx == 0 { None } else { idx.and_then(|i| secs.get(i as usize)).and_then(|s| rrange(f, s.off, s.size).ok()).map(|(o, z)| &f[o as usize..(o + z) as usize]) };
+        for q in [".text", ".rela", ".text.hot", "", ".t", "x", ".rela.dyn", "lib"] {
+            let got = match catch_unwind(AssertUnwindSafe(|| e.section_header_by_name(q))) {
+                Ok(g) => g,
+                Err(_) => fail!("C01 section_header_by_name panicked [{label}]"),
+            };
+            let Some(strs) = strs else { continue };
+            let exp = secs.iter().position(|s| {
+                let Some(t) = strs.get(s.name as usize..) else { return false };
+                let Some(n) = t.iter().position(|b| *b == 0) else { return false };
+                match std::str::from_utf8(&t[..n]) {
+                    Ok(name) => name == q,
+                    Err(_) => false,
+                }
+            });
+            match (got, exp) {
+                (Ok(None), None) => {}
+                (Ok(Some(h)), Some(i)) => {
+                    let x = &secs[i];
+                    if h.sh_name as u64 != x.name || h.sh_offset != x.off || h.sh_type as u64 != x.ty || h.sh_size != x.size {
+                        fail!("C20 section_header_by_name({q:?}) returned another section than the first one named {q:?} (index {i}) [{label}]");
+                    }
+                }
+                (Ok(Some(_)), None) => fail!("C20 section_header_by_name({q:?}) returned a section although no section has exactly that name [{label}]"),
+                (Ok(None), Some(i)) => fail!("C20 section_header_by_name({q:?}) = None although section {i} has that name [{label}]"),
+                (Err(_), _) => {}
+            }
+        }
+    }
     // symbol_version_table wiring, observed through queries: reference resolution by an independent walker
     if let Some(secs) = &rs {
         let one = |t: u32| secs.iter().filter(|s| s.ty == t as u64).count() <= 1;
@@ -673,6 +706,23 @@ fn run() -> Result<usize, Failure> {
                 }
             }
         }
+    }
+    // Family 4: section names that are prefixes of each other, duplicated, empty and not UTF-8, in several orders
+    let names: Vec<&[u8]> = vec![b".text.hot", b".text", b".rela.dyn", b"", b"\xff\xfe", b".text", b"lib"];
+    for perm in permutations(&[0, 1, 2, 3, 4]) {
+        let mut strtab = vec![0u8];
+        let mut secs = vec![sec(0, vec![])];
+        for &k in perm.iter().chain([5usize, 6].iter()) {
+            let off = strtab.len() as u32;
+            strtab.extend_from_slice(names[k]);
+            strtab.push(0);
+            secs.push(Sec { name: off, ..sec(1, vec![k as u8; 4]) });
+        }
+        let snd = secs.len() as u16;
+        secs.push(sec(SHT_STRTAB, strtab));
+        let spec = Spec { secs, phdrs: vec![], shstrndx: snd, xnum: false, shentsize: 64, trailing: 0 };
+        check_file(&format!("section names in order {perm:?}"), &build(&spec))?;
+        n += 1;
     }
     Ok(n)
 }
